@@ -547,9 +547,29 @@ def judgeCmd (s : JState) (cmd : String) (impl : List String) : JState × List S
               -- live values after the restore, as far as the trace tells
               let s' := { s with live := (s.live.zip gotL).map (fun (p : JVar × V) => { p.1 with val := p.2 }) }
               -- statics are never touched by a restore
-              let stat := (s.live.zip gotL).foldl (fun (acc : List String) (p : JVar × V) =>
+              let stat0 := (s.live.zip gotL).foldl (fun (acc : List String) (p : JVar × V) =>
                 if p.1.isStatic ∧ pv false (expectOf p.1.val) != pv false p.2 then
                   acc ++ [s!"static-variable-changed-by-restore {p.1.name}"] else acc) []
+              -- restore_object(file, 1) goes through safe_restore_svalue: the variable whose line could not be restored
+              -- (named in the error message) keeps the value it had
+              let failed : Option String := (impl.takeWhile (· != "roerr")).findSome? (fun e =>
+                if e.startsWith "err restore_object(): Illegal" then
+                  match e.splitOn " while restoring " with
+                  | [_, tail] => some (String.ofList (tail.toList.reverse.dropWhile (· == '.')).reverse)
+                  | _ => none
+                else none)
+              let kept : List String :=
+                if nc != "0" ∧ l == "roerr" then
+                  match failed with
+                  | some x =>
+                    match (s.live.zip gotL).find? (fun (p : JVar × V) => p.1.name == x) with
+                    | some p =>
+                      if !p.1.isStatic ∧ pv false p.1.val != pv false p.2 ∧ pv false (expectOf p.1.val) != pv false p.2 then
+                        [s!"variable-changed-by-failed-restore {x}"] else []
+                    | none => []
+                  | none => []
+                else []
+              let stat := stat0 ++ kept
               match expectedAfterRestore s (nc != "0"), l with
               | some ex, "ro 1" =>
                 let vs0 := (ex.zip gotL).foldl (fun (acc : List String) (p : JVar × V) => acc ++ cmpRestored p.1.name p.1.val p.2) []
